@@ -71,6 +71,8 @@ pub const MID_ROOTS: &[&str] = &[
     "4k3/8/8/8/8/8/5p1K/8 b - - 0 1",
     // maximal number of batches: 16 mobile pieces, two en-passant capturers, castling available
     "4k3/8/8/1N1PpP2/7N/8/PPPBBPPP/R2QK2R w KQ e6 0 1",
+    "4k3/8/8/1N1PpP2/7N/2P5/PP1BBPPP/R2QK2R w KQ e6 0 1",
+    "r2qk2r/pp1bbppp/2p5/7n/1n1pPp2/8/8/4K3 b kq e3 0 1",
     "r2qk2r/pppbbppp/8/7n/1n1pPp2/8/8/4K3 b kq e3 0 1",
     // a pinned-piece zoo
     "4k3/4r3/8/q7/1P6/2N5/3PB3/r2BK2q w - - 0 1",
@@ -482,14 +484,17 @@ impl RawUniverse for NMen {
 /// pieces from a menu on the three ranks nearest the king.
 pub struct Castle {
     pub extra: usize,
+    /// also put the enemy king on every square of the castler's second rank (it may then attack
+    /// squares the castling king crosses)
+    pub ek_rank2: bool,
 }
 const CASTLE_MENU: [(Kind, bool); 7] = [(Kind::N, true), (Kind::B, true), (Kind::R, false), (Kind::B, false), (Kind::N, false), (Kind::Q, false), (Kind::P, false)];
 impl RawUniverse for Castle {
     fn name(&self) -> String {
-        format!("S-CASTLE(n<={})", self.extra)
+        format!("S-CASTLE(n<={}{})", self.extra, if self.ek_rank2 { ",ek on rank 2" } else { "" })
     }
     fn bounds(&self) -> Value {
-        json!({"colours": 2, "king_files": 8, "king_off_back_rank_variants": true, "rook_files": "every admissible file or none, per wing", "rights": "every subset", "enemy_king_squares": 2, "sides": 2,
+        json!({"colours": 2, "king_files": 8, "king_off_back_rank_variants": true, "rook_files": "every admissible file or none, per wing", "rights": "every subset", "enemy_king_squares": if self.ek_rank2 { 12 } else { 4 }, "sides": 2,
                "extra_pieces_max": self.extra, "extra_menu": "own N, own B, enemy R B N Q P on the three ranks nearest the king"})
     }
     fn parts(&self) -> usize {
@@ -500,7 +505,12 @@ impl RawUniverse for Castle {
         let kf = (i % 8) as u8;
         let br = c.back_rank();
         let them = c.other();
-        let enemy_kings = [sq(6, them.back_rank()), sq(1, c.rel_rank(6))];
+        // two far squares, and the two corners of the mover's OWN back rank (a castled rook may
+        // then give check along the back rank)
+        let mut enemy_kings = vec![sq(6, them.back_rank()), sq(1, c.rel_rank(6)), sq(0, br), sq(7, br)];
+        if self.ek_rank2 {
+            enemy_kings.extend((0..8u8).map(|fl| sq(fl, c.rel_rank(1))));
+        }
         let zone: Vec<Sq> = (0..3u8).flat_map(|r| (0..8u8).map(move |fl| sq(fl, c.rel_rank(r)))).collect();
         for king_rank_up in [false, true] {
             let ksq = if king_rank_up { sq(kf, c.rel_rank(1)) } else { sq(kf, br) };
@@ -578,30 +588,45 @@ impl Castle {
 pub struct EpUniverse {
     pub king_squares: Vec<Sq>,
     pub extra_kinds: Vec<(Kind, bool)>,
+    /// emit the positions ONE PLY BEFORE the double push instead (pawn on its origin square, the
+    /// pusher to move, no en-passant square): explored one ply, the push itself is then played by
+    /// the library and the resulting board must behave like any other handed-out board
+    pub prepush: bool,
 }
 impl EpUniverse {
     pub fn reduced() -> EpUniverse {
         // 20 squares: the four around/on the pawns' rank region and a spread elsewhere
         let ks: Vec<Sq> = vec![0, 3, 4, 7, 16, 19, 20, 23, 24, 27, 28, 31, 32, 35, 36, 39, 40, 44, 56, 60];
-        EpUniverse { king_squares: ks, extra_kinds: vec![(Kind::R, false), (Kind::B, false)] }
+        EpUniverse { king_squares: ks, extra_kinds: vec![(Kind::R, false), (Kind::B, false)], prepush: false }
     }
     pub fn small() -> EpUniverse {
-        EpUniverse { king_squares: vec![4, 24, 27, 31, 36, 60], extra_kinds: vec![(Kind::R, false), (Kind::B, false)] }
+        EpUniverse { king_squares: vec![4, 24, 27, 31, 36, 60], extra_kinds: vec![(Kind::R, false), (Kind::B, false)], prepush: false }
     }
     /// own sliders as the extra piece: en-passant captures that open a line for the capturer's side
     pub fn own_sliders() -> EpUniverse {
-        EpUniverse { king_squares: vec![4, 24, 27, 31, 36, 60], extra_kinds: vec![(Kind::B, true), (Kind::R, true), (Kind::Q, true)] }
+        EpUniverse { king_squares: vec![4, 24, 27, 31, 36, 60], extra_kinds: vec![(Kind::B, true), (Kind::R, true), (Kind::Q, true)], prepush: false }
+    }
+    /// one ply before the double push: the capturer's king on EVERY square, enemy R / B as extra
+    pub fn before_push(quick: bool) -> EpUniverse {
+        if quick {
+            // both back ranks and the four centre squares; one kind of extra piece
+            let ks: Vec<Sq> = (0..8).chain(56..64).chain([27, 28, 35, 36]).collect();
+            EpUniverse { king_squares: ks, extra_kinds: vec![(Kind::R, false)], prepush: true }
+        } else {
+            EpUniverse { king_squares: (0..64).collect(), extra_kinds: vec![(Kind::R, false), (Kind::B, false)], prepush: true }
+        }
     }
     pub fn full() -> EpUniverse {
         EpUniverse {
             king_squares: (0..64).collect(),
             extra_kinds: vec![(Kind::R, false), (Kind::B, false), (Kind::Q, false), (Kind::N, false), (Kind::B, true), (Kind::R, true), (Kind::N, true)],
+            prepush: false,
         }
     }
 }
 impl RawUniverse for EpUniverse {
     fn name(&self) -> String {
-        format!("S-EP(kings={},extras={})", self.king_squares.len(), self.extra_kinds.len())
+        format!("S-EP(kings={},extras={}{})", self.king_squares.len(), self.extra_kinds.len(), if self.prepush { ",before the push" } else { "" })
     }
     fn bounds(&self) -> Value {
         json!({"mover_colours": 2, "ep_files": 8, "capturers": "left/right/both/none", "own_king_squares": self.king_squares.len(), "enemy_king_squares": 4,
@@ -637,10 +662,28 @@ impl RawUniverse for EpUniverse {
                     }
                     put(&mut base, ok, Kind::K, c);
                     put(&mut base, ek, Kind::K, them);
+                    let prepush = self.prepush;
                     let mut emit = |p: &Pos| {
+                        if prepush {
+                            // un-push: pawn back on its origin square, the pusher to move
+                            let origin = sq(file, c.rel_rank(6));
+                            if p.sq[origin as usize].is_some() || p.sq[target as usize].is_some() {
+                                return;
+                            }
+                            let mut a = p.clone();
+                            a.sq[pawn as usize] = None;
+                            a.sq[origin as usize] = Some((Kind::P, them));
+                            a.stm = them;
+                            f(a);
+                            return;
+                        }
                         let mut a = p.clone();
                         a.ep = Some(target);
                         a.fm = 2;
+                        f(a.clone());
+                        // the same with a running half-move clock: accepted by parser, builder and
+                        // set_halfmove_clock although play never produces it
+                        a.hm = 7;
                         f(a);
                         f(p.clone());
                     };
